@@ -235,7 +235,15 @@ func (e *Env) eval(x Expr) Val {
 			for _, pe := range x.Pats {
 				pts = append(pts, flatten(inner.eval(pe))...)
 			}
-			body = fmt.Sprintf("(! %s :pattern (%s))", body, strings.Join(pts, " "))
+			ann := fmt.Sprintf(":pattern (%s)", strings.Join(pts, " "))
+			for _, g := range x.Alts {
+				var gp []string
+				for _, pe := range g {
+					gp = append(gp, flatten(inner.eval(pe))...)
+				}
+				ann += fmt.Sprintf(" :pattern (%s)", strings.Join(gp, " "))
+			}
+			body = fmt.Sprintf("(! %s %s)", body, ann)
 		}
 		return VBool{fmt.Sprintf("(%s (%s) %s)", q, strings.Join(decl, " "), body)}
 	case EIndex:
@@ -589,8 +597,26 @@ func (e *Env) call(x ECall) Val {
 		}
 		return VBool{and(parts...)}
 	case "isfresh": // the slice's backing array was allocated after the old() state
-		if sl, ok := e.eval(x.Args[0]).(VSlice); ok {
-			return VBool{le(e.old.nextRef, sl.Base)}
+		switch v := e.eval(x.Args[0]).(type) {
+		case VSlice:
+			return VBool{le(e.old.nextRef, v.Base)}
+		case VPtr: // object allocated after the old() state
+			if v.Root == rootObj && len(v.Path) == 0 {
+				return VBool{le(e.old.nextRef, v.Ref)}
+			}
+		case VInt: // map (or other reference) allocated after the old() state
+			return VBool{le(e.old.nextRef, v.T)}
+		}
+	case "allocated": // the object / backing array / map exists in the current state (its reference is below the allocation counter)
+		switch v := e.eval(x.Args[0]).(type) {
+		case VSlice:
+			return VBool{lt(v.Base, e.st.nextRef)}
+		case VPtr:
+			if v.Root == rootObj && len(v.Path) == 0 {
+				return VBool{lt(v.Ref, e.st.nextRef)}
+			}
+		case VInt:
+			return VBool{lt(v.T, e.st.nextRef)}
 		}
 	case "ptr": // ptr(r, "T"): the Int r viewed as a pointer to a T
 		if lit, ok := x.Args[1].(EStr); ok {
@@ -696,5 +722,50 @@ func (e *Env) call(x ECall) Val {
 		return n.eval(sf.Body)
 	}
 	sfail("unknown spec function %s", x.Fn)
+	return nil
+}
+
+// mapType finds the static map type of a spec expression (a struct field, a local
+// variable or parameter of the function in scope, possibly under old()).
+func (e *Env) mapType(x Expr) *types.Map {
+	fieldOf := func(st *types.Struct, name string) *types.Map {
+		for i := 0; i < st.NumFields(); i++ {
+			if st.Field(i).Name() == name {
+				return mapTypeOf(st.Field(i).Type())
+			}
+		}
+		return nil
+	}
+	switch x := x.(type) {
+	case EField:
+		switch b := e.eval(x.X).(type) {
+		case VPtr:
+			if st, ok := fieldType(b).Underlying().(*types.Struct); ok {
+				return fieldOf(st, x.F)
+			}
+		case VStruct:
+			return fieldOf(b.T, x.F)
+		}
+	case EIdent:
+		if e.fn != nil {
+			if a := e.c.findCell(e.fn, x.Name); a != nil {
+				return mapTypeOf(a.Type().(*types.Pointer).Elem())
+			}
+			for _, p := range e.fn.Params {
+				if p.Name() == x.Name {
+					return mapTypeOf(p.Type())
+				}
+			}
+			for _, p := range e.fn.FreeVars {
+				if p.Name() == x.Name {
+					return mapTypeOf(p.Type().(*types.Pointer).Elem())
+				}
+			}
+		}
+	case ECall:
+		if x.Fn == "old" && len(x.Args) == 1 {
+			return e.mapType(x.Args[0])
+		}
+	}
 	return nil
 }
